@@ -224,7 +224,7 @@ func (a *FuncAn) proverFor(s *State) *prover {
 					break
 				}
 				p.steps = 0
-				if !p.prove(pre, 3, nil) {
+				if !p.prove(pre, 5, nil) {
 					ok = false
 					break
 				}
